@@ -21,7 +21,7 @@ def canon(line):
     w = line.split()
     if w and w[0] == "hit" and len(w) >= 5:
         w[2] = ",".join(sorted(w[2].split(","), key=lambda x: (b"" if x == "e" else bytes.fromhex(x)) if x != "-" else b""))
-    return " ".join(x for x in w if x != "lowmem")
+    return " ".join(x for x in w if x != "lowmem" and not x.startswith("nem="))
 
 
 # ------------------------------------------------------------------ generators
@@ -171,11 +171,13 @@ class Runner:
                 extra = []
                 if "copyfail" in w:
                     extra.append("copyfail")
-                elif keys_oracle and proc and "|" in w:
-                    # small segment: check_limits may have evicted because the allocator reported low memory, or the
-                    # insertion may have failed and cleared the cache; the entry count after the store is the oracle
-                    keys = int(w[w.index("|") + 1])
-                    extra.append("cleared" if keys == 0 else f"keys={keys}")
+                elif proc and "|" in w:
+                    # allocator outcomes the model takes as inputs: what not_enough_memory() has to answer at each
+                    # evaluation of check_limits' guard (computed by the harness from the buddy allocator's state), and
+                    # an insertion that failed and emptied the cache (no entry left although the store went on)
+                    extra += [x for x in w if x.startswith("nem=")]
+                    if keys_oracle and int(w[w.index("|") + 1]) == 0:
+                        extra.append("cleared")
                 if extra:
                     cs = cs + " " + " ".join(extra)
             if "lowmem" in w:
@@ -331,7 +333,10 @@ def pressure_history(rng, limit, shm, nops):
     now = 1000
     g = 0
     h = [new_line("process", limit, shm)]
-    sizes = [0, 10, 16, 100, 1000, 4000, shm // 64, shm // 40, shm // 21, shm // 19, shm // 9, shm // 3, shm, 4 * shm]
+    # value sizes from 0 to beyond the per-item share of the segment: around the 5 % cap and the 10 % low-memory mark,
+    # around shm/limit and the power-of-two block sizes (a block holds 2^k - 17 bytes of value)
+    sizes = [0, 10, 16, 100, 1000, 4000, shm // 64, shm // 40, shm // 21, shm // 19, shm // 11, shm // 9, shm // 8 - 5536,
+             shm // 8 - 17, shm // 8, shm // 16 - 17, shm // 16 - 16, shm // 4 - 17, shm // 3, shm, 4 * shm]
     for _ in range(nops):
         now += rng.randrange(0, 3)
         r = rng.random()
@@ -353,6 +358,29 @@ def pressure_history(rng, limit, shm, nops):
         else:
             h.append("clear")
     return h + census_lines(keys)
+
+
+def fill_history(rng, limit, shm, cycles, per_cycle):
+    """fill / refill with fresh keys and values near the per-item share (the allocator must keep making room by
+    evicting the least recently used entries: every fresh store fetchable, survivors = the most recent ones)"""
+    vs = rng.choice((shm // 8 - 5536, shm // 8 - 17, shm // 16 - 17, shm // 11, shm // 21, shm // 4 - 17))
+    h = [new_line("process", limit, shm)]
+    now, g = 1000, 0
+    keys = []
+    for cy in range(cycles):
+        for i in range(per_cycle):
+            k = b"c%dk%d" % (cy, i)
+            keys.append(k)
+            g += 1
+            h.append(f"store {now} {hx(k)} r{(97 + i % 26):02x}x{max(0, vs + rng.randrange(-3, 3))} - {now + 1000} {g}")
+            if rng.random() < 0.5:
+                h.append(f"fetch {now} {hx(k)}")
+            if rng.random() < 0.2 and len(keys) > 3:
+                h.append(f"fetch {now} {hx(keys[-3])}")
+        h.append("stats")
+        if rng.random() < 0.7:
+            h.append("clear")
+    return h + census_lines(keys[-40:])
 
 
 def check_census(cases, raw, hist_of):
